@@ -673,6 +673,24 @@ class Sx:
     def tan(self):
         return self.sin() / self.cos()
 
+    def log(self):
+        k = self.as_k()
+        if k is None:
+            k = reduce_terms(self).as_k()
+        if k is None:
+            raise NotEncodable('log of a non-field value')
+        if k == 1:
+            return Sx.const(0, self.ctx)
+        return Sx.from_k(self.ctx.new_derived('log', k, {}), self.ctx)
+
+    def arctan(self):
+        k = self.as_k()
+        if k is None:
+            raise NotEncodable('arctan of a non-field value')
+        if k == 0:
+            return Sx.const(0, self.ctx)
+        return Sx.from_k(self.ctx.new_derived('atan', k, {}), self.ctx)
+
     def sqrt(self):
         ctx = self.ctx
         if not self.t:
@@ -697,6 +715,8 @@ class Sx:
                 return Sx.from_k(k_abs(c, ctx), ctx)
         if self.is_real_syntactic():
             raise NotEncodable('abs of a content-dependent real value')
+        if any(m for (m, _, _) in self.t):
+            return AbsSx(self)       # |z| of a content-dependent complex value: only its square is representable
         n2 = reduce_terms(self.abs2())
         if n2.as_k() is None:
             kc = to_k_complex(n2)
@@ -837,6 +857,30 @@ class Sx:
 
     def diff(self, atom_name):
         return sx_diff(self, atom_name)
+
+
+class AbsSx:
+    """|z| for a content-dependent complex z.  Only |z|**2 (and |z|*|z|) can be expressed exactly; anything else is NotEncodable."""
+
+    def __init__(self, z):
+        self.z = z
+
+    def __pow__(self, e):
+        if isinstance(e, Sx):
+            e = e.as_fraction()
+        if e == 2:
+            return self.z.abs2()
+        if isinstance(e, int) and e % 2 == 0 and e > 0:
+            return self.z.abs2() ** (e // 2)
+        raise NotEncodable('odd power of the modulus of a content-dependent complex value')
+
+    def __mul__(self, o):
+        if isinstance(o, AbsSx) and o.z is self.z:
+            return self.z.abs2()
+        raise NotEncodable('modulus of a content-dependent complex value')
+
+    def __getattr__(self, name):
+        raise NotEncodable('modulus of a content-dependent complex value (%s)' % name)
 
 
 # ---------------------------------------------------------------------------------------------
